@@ -648,7 +648,7 @@ def run(rep, repo, tier):
         if printer_roundtrip(rep, repo, mod, cls, kw, p):
           singles.append((p, v, ctx))
         n += 1
-    if tier == "thorough" and base_ok:
+    if base_ok:
       # two options at a time, among those that round-trip one at a time
       # (a pair that contains an option which already fails alone adds
       # nothing): catches printers whose positional slots or separators
@@ -660,6 +660,11 @@ def run(rep, repo, tier):
           if p1 == p2 or p1 in c2 or p2 in c1 or any(
               k in c2 and c2[k] != c1[k] for k in c1):
             continue
+          if tier != "thorough" and not any(
+              pp == "alpha" and isinstance(vv, str)
+              for pp, vv in ((p1, v1), (p2, v2))):
+            continue   # quick: the pairs with a data-dependent scale, whose
+            #            printers follow conventions of their own
           kw = dict(base)
           kw.update(c1)
           kw.update(c2)
